@@ -61,6 +61,9 @@ def run_lean(files):
     """each bridge file is checked by `lean` against Mathlib; returns [(file, ok, secs, output)]"""
     procs = []
     env = dict(os.environ)
+    if any(f.endswith('Link.lean') for f in files):        # the linked file is regenerated from the contract objects on every run
+        r = subprocess.run(['python3-vt', os.path.join(HERE, 'tools', 'render_lean.py')], capture_output=True, text=True)
+        if r.returncode != 0: return [{'file': 'bridge/Link.lean', 'ok': False, 'secs': 0.0, 'output': 'render_lean.py failed: ' + (r.stdout + r.stderr)[-600:], 'theorems': []}]
     for f in files:
         t = time.time()
         cmd = ['lean', os.path.join(HERE, f)]
